@@ -133,7 +133,8 @@ def graphOf (arr : Array (Node Nat)) : Graph Nat := fun j => arr[j]?.getD (.para
 /-- the first `N` entries of a graph function, tabulated -/
 def table (N : Nat) (g : Graph Nat) : Array (Node Nat) := Array.ofFn (n := N) (fun j => g j.val)
 
-/-- every dependency has a smaller id (the model's `WF`); a request violating it is malformed -/
+/-- the C13 harness numbers its (fixed) graphs topologically: every dependency has a smaller id (a ranking for the
+    model's guard `Acyclic`); a request violating it is treated as malformed -/
 def wfNodes (ns : List (Node Nat)) : Bool :=
   (ns.zipIdx).all fun (n, i) =>
     match n with
